@@ -119,7 +119,7 @@ def compute_interpolation_weights(inputs, keypoints, lengths):
     return tf.concat([tf.ones_like(inputs), weights], axis=-1)
   else:
     shape = tf.concat([tf.shape(weights)[:-1], [1]], axis=0)
-    return tf.concat([tf.ones(shape), weights], axis=-1)
+    return tf.concat([tf.ones(shape, dtype=weights.dtype), weights], axis=-1)
   # return tf.concat([tf.ones_like(weights)[..., :1], weights], axis=-1)
   # return tf.concat([tf.ones_like(weights[..., :1]), weights], axis=-1)
   # paddings = [[0, 0]] * (len(weights.shape) - 1) + [[1, 0]]
